@@ -571,6 +571,8 @@ func (r *FnRun) evalQuant(x SQuant, env *specEnv) Val {
 			s = SBV(32)
 		case "u64", "u32", "u16", "u8":
 			s = r.ms(Sort("@" + x.Types[i]))
+		case "intarr":
+			s = SArr(SInt, SInt)
 		default:
 			sfail("unknown quantifier type %q", x.Types[i])
 		}
